@@ -963,4 +963,321 @@ theorem floorFrom_pres (hP : NotifyStable P o) (ts : List Typ) (w : World) (g : 
 end pres
 
 
+def Event.oracle : Event → Oracle
+  | .group _ _ _ _ _ o | .probe _ _ _ _ o | .txn _ _ _ o | .tfail _ _ _ o | .forced _ _ o | .tok _ _ o
+  | .inherit _ _ o | .restore _ _ o | .floor _ _ o => o
+  | _ => []
+
+/-- the event's latency inputs (and, for a new group, its tolerance and offsets) are far below the
+one-hour sentinel -/
+def Event.OK : Event → Prop
+  | .group _ _ _ tol ms o => o.Small ∧ tol ≤ slack ∧ ∀ m ∈ ms, m.2 ≤ slack
+  | e => e.oracle.Small
+
+theorem goodSet_stable (o : Oracle) (ho : o.Small) : NotifyStable GoodSet o :=
+  fun s d a h => goodSet_notify s d a o ho h
+
+theorem notifyEach_pres (P : ASet → Prop) (o : Oracle) (hP : NotifyStable P o) (alive : Nat → Bool) (ds : List Nat) :
+    ∀ s, P s → P (notifyEach s alive o ds).1 := by
+  induction ds with
+  | nil => intro s h; exact h
+  | cons d ds ih => intro s h; exact ih _ (hP s d (alive d) h)
+
+theorem goodSet_fresh (g ob : Nat) (p : Policy) (tol : Int) (ms : List (Nat × Int)) (t : Typ)
+    (htol : tol ≤ slack) (hms : ∀ m ∈ ms, m.2 ≤ slack) :
+    GoodSet ⟨g, ob, t.idx, p.isMin, tol, ms.map (·.1),
+      (fun d => match ms.find? fun e => e.1 == d with | some e => e.2 | none => 0), false, [], none, hour, true, 0⟩ := by
+  refine ⟨⟨⟨by simp [keys], by simp, by simp, by simp, by simp, by simp⟩, by simp⟩, htol, ?_⟩
+  intro d
+  simp only
+  split
+  · rename_i e he; exact hms e (List.mem_of_find?_eq_some he)
+  · unfold slack; omega
+
+theorem goodSet_active (s : ASet) (b : Bool) (h : GoodSet s) : GoodSet { s with active := b } :=
+  ⟨⟨⟨h.1.nodup, h.1.minMem, h.1.minNone, h.1.small, h.1.sel, h.1.nonMin⟩, h.1.bit⟩, h.2⟩
+
+theorem goodSet_init (s : ASet) (h : GoodSet s) : GoodSet { s with kbit := true, ncb := 0 } := by
+  refine ⟨⟨⟨h.1.nodup, h.1.minMem, h.1.minNone, h.1.small, h.1.sel, h.1.nonMin⟩, ?_⟩, h.2⟩
+  intro _; exact ⟨fun _ => rfl, fun _ => Or.inr rfl⟩
+
+theorem newSet_good (w : World) (g ob : Nat) (p : Policy) (tol : Int) (ms : List (Nat × Int)) (o : Oracle) (t : Typ)
+    (ho : o.Small) (htol : tol ≤ slack) (hms : ∀ m ∈ ms, m.2 ≤ slack) :
+    GoodSet (newSet w g ob p tol ms o t).1 := by
+  unfold newSet
+  simp only
+  apply goodSet_active
+  apply notifyEach_pres GoodSet o (goodSet_stable o ho)
+  apply notifyEach_pres GoodSet o (goodSet_stable o ho)
+  exact goodSet_fresh g ob p tol ms t htol hms
+
+theorem newSets_good (w : World) (g ob : Nat) (p : Policy) (tol : Int) (ms : List (Nat × Int)) (o : Oracle)
+    (ho : o.Small) (htol : tol ≤ slack) (hms : ∀ m ∈ ms, m.2 ≤ slack) (ts : List Typ) :
+    ∀ s ∈ (newSets w g ob p tol ms o ts).1, GoodSet s := by
+  induction ts with
+  | nil => intro s hs; simp [newSets] at hs
+  | cons t ts ih =>
+    intro s hs
+    simp only [newSets, List.mem_cons] at hs
+    rcases hs with rfl | hs
+    · exact newSet_good w g ob p tol ms o t ho htol hms
+    · exact ih s hs
+
+theorem step_good (w : World) (e : Event) (he : e.OK) (h : SetsAll GoodSet w) : SetsAll GoodSet (step w e).1 := by
+  cases e with
+  | node n a => simp only [step]; split <;> exact h
+  | group g ob p tol ms o =>
+    simp only [step]; split
+    · exact h
+    · obtain ⟨ho, htol, hms⟩ := he
+      intro s hs
+      simp only [newGroup, List.mem_append, List.mem_map] at hs
+      rcases hs with hs | ⟨s', hs', rfl⟩
+      · exact h s hs
+      · apply goodSet_init
+        split at hs'
+        · exact newSets_good w g ob p tol ms o ho htol hms _ s' hs'
+        · simp at hs'
+  | close g =>
+    intro s hs
+    simp only [step, List.mem_map] at hs
+    obtain ⟨s', hs', rfl⟩ := hs
+    split
+    · exact goodSet_active s' false (h s' hs')
+    · exact h s' hs'
+  | probe n t a1 a2 o =>
+    simp only [step]; split
+    · exact markAvail_pres GoodSet o (goodSet_stable o he) _ n t h
+    · exact markUnavail_pres GoodSet o (goodSet_stable o he) w n t false h
+    · exact h
+  | txn n t ign o =>
+    simp only [step]; split
+    · exact h
+    · exact markUnavail_pres GoodSet o (goodSet_stable o he) w n t false h
+  | tfail n t ign o =>
+    simp only [step]; split
+    · exact h
+    · exact markUnavail_pres GoodSet o (goodSet_stable o he) w n t true h
+  | forced n t o => exact markForced_pres GoodSet o (goodSet_stable o he) w n t h
+  | tok n t o => exact trafficOk_pres GoodSet o (goodSet_stable o he) w n t h
+  | sbegin => exact h
+  | send =>
+    simp only [step]; split
+    · exact h
+    · split <;> exact h
+  | tick d => exact h
+  | resetGlobal => exact h
+  | inherit n m o => exact restoreFrom_pres GoodSet o (goodSet_stable o he) _ w n _ h
+  | restore n s o => exact restoreFrom_pres GoodSet o (goodSet_stable o he) _ w n s h
+  | floor g fb o => exact floorFrom_pres GoodSet o (goodSet_stable o he) _ w g fb h
+
+theorem run_good (es : List Event) : ∀ (w : World), (∀ e ∈ es, e.OK) → SetsAll GoodSet w →
+    SetsAll GoodSet (run w es).1 := by
+  induction es with
+  | nil => intro w _ h; exact h
+  | cons e es ih =>
+    intro w he h
+    exact ih _ (fun e' he' => he e' (List.mem_cons_of_mem _ he')) (step_good w e (he e List.mem_cons_self) h)
+
+
+/-! ## node maps after each primitive -/
+
+@[simp] theorem setNode_nodes (w : World) (n : Nat) (nd : Node) : (w.setNode n nd).nodes = upd w.nodes n nd := rfl
+@[simp] theorem setNode_sets (w : World) (n : Nat) (nd : Node) : (w.setNode n nd).sets = w.sets := rfl
+
+theorem markForced_nodes (w : World) (n : Nat) (t : Typ) (o : Oracle) :
+    (markForced w n t o).1.nodes = upd w.nodes n ((w.nodes n).forced t) := rfl
+
+theorem escalateFrom_nodes (ts : List Typ) (n : Nat) (o : Oracle) : ∀ w : World,
+    (escalateFrom ts w n o).1.nodes = upd w.nodes n (ts.foldl Node.forced (w.nodes n)) := by
+  induction ts with
+  | nil => intro w; funext m; simp [escalateFrom, upd]; intro h; rw [h]
+  | cons t ts ih =>
+    intro w
+    simp only [escalateFrom, List.foldl_cons]
+    rw [ih, markForced_nodes]
+    simp
+
+theorem markAvail_nodes (w : World) (n : Nat) (t : Typ) (o : Oracle) :
+    (markAvail w n t o).1.nodes = upd w.nodes n ((w.nodes n).avail t) := rfl
+
+theorem cleanupFailures_nodes (w : World) : (cleanupFailures w).nodes = w.nodes := by
+  unfold cleanupFailures; simp only; split
+  · rfl
+  · split <;> rfl
+
+theorem recordFailure_nodes (w : World) (a : Nat) : (recordFailure w a).1.nodes = w.nodes := by
+  unfold recordFailure; simp only; split <;> exact cleanupFailures_nodes w
+
+/-- did this counted failure escalate? (`recordProxyFailure` returned true) -/
+def escalates (w : World) (n : Nat) (t : Typ) (tr : Bool) : Bool :=
+  let nd := w.nodes n
+  let nd' := nd.counted t tr
+  (nd.alive t.idx && !nd'.alive t.idx) && decide (nd.addr ≠ 0) && (recordFailure (w.setNode n nd') nd.addr).2
+
+theorem markUnavail_nodes (w : World) (n : Nat) (t : Typ) (tr : Bool) (o : Oracle) :
+    (markUnavail w n t tr o).1.nodes =
+      if w.suppressed then w.nodes
+      else if escalates w n t tr then upd w.nodes n (escalationTyps.foldl Node.forced ((w.nodes n).counted t tr))
+      else upd w.nodes n ((w.nodes n).counted t tr) := by
+  unfold markUnavail escalates
+  split
+  · rfl
+  · simp only
+    split
+    · rename_i hc
+      split
+      · rename_i hr
+        simp only [escalate, escalateFrom_nodes, recordFailure_nodes, setNode_nodes, upd_same, upd_upd]
+        simp [hc.1, hc.2, hr]
+      · rename_i hr
+        simp only [recordFailure_nodes, setNode_nodes]
+        simp [hc.1, hc.2, hr]
+    · rename_i hc
+      simp only [setNode_nodes]
+      have : ((w.nodes n).alive t.idx && !((w.nodes n).counted t tr).alive t.idx && decide ((w.nodes n).addr ≠ 0)) = false := by
+        cases h1 : ((w.nodes n).alive t.idx && !((w.nodes n).counted t tr).alive t.idx)
+        · simp
+        · simp only [h1, true_and, Decidable.not_not] at hc
+          simp [hc]
+      simp only [this, Bool.false_and, Bool.false_eq_true, if_false]
+
+theorem trafficOk_nodes (w : World) (n : Nat) (t : Typ) (o : Oracle) :
+    (trafficOk w n t o).1.nodes =
+      if t.isData && !(w.nodes n).alive t.idx then upd w.nodes n (((w.nodes n).clearTraffic t).avail t)
+      else upd w.nodes n ((w.nodes n).clearTraffic t) := by
+  unfold trafficOk; simp only; split
+  · rw [markAvail_nodes]; simp
+  · rfl
+
+theorem restoreIdx_nodes (w : World) (n : Nat) (s : Snapshot) (o : Oracle) (i : Nat) :
+    (restoreIdx w n s o i).1.nodes = upd w.nodes n ((w.nodes n).restoreIdx s i) := rfl
+
+theorem restoreFrom_nodes (is : List Nat) (n : Nat) (s : Snapshot) (o : Oracle) : ∀ w : World,
+    (restoreFrom is w n s o).1.nodes = upd w.nodes n (is.foldl (fun nd i => nd.restoreIdx s i) (w.nodes n)) := by
+  induction is with
+  | nil => intro w; funext m; simp [restoreFrom, upd]; intro h; rw [h]
+  | cons i is ih =>
+    intro w
+    simp only [restoreFrom, List.foldl_cons]
+    rw [ih, restoreIdx_nodes]
+    simp
+
+theorem markAliveFallback_nodes (w : World) (n : Nat) (t : Typ) (o : Oracle) :
+    (markAliveFallback w n t o).1.nodes = upd w.nodes n ((w.nodes n).avail t) := rfl
+
+
+/-! ## duplicate-free entries: holds for every oracle -/
+
+theorem notify_keys (s : ASet) (d : Nat) (a : Bool) (lat : Option Int) (hnd : (keys s.entries).Nodup) :
+    (keys (s.notify d a lat).1.entries).Nodup ∧
+    (∀ x, x ∈ keys (s.notify d a lat).1.entries ↔ if x = d then a = true else x ∈ keys s.entries) := by
+  rw [notify_eq]
+  simp only [fire_entries]
+  generalize s.effLat lat = lat'
+  have hk1 := phase1_keys s d a lat' hnd
+  have hk2 := phase2_keys (s.phase1 d a lat').1 d a lat'
+  refine ⟨?_, fun x => by rw [hk2]; exact hk1 x⟩
+  rw [hk2]
+  unfold ASet.phase1
+  cases a <;> cases hh : s.has d <;> simp only [Bool.false_eq_true, if_false, if_true]
+  · exact hnd
+  · rw [has_iff] at hh
+    have sp := (swapRemove_spec s.entries d hnd hh).1
+    split
+    · simp only [calcMin_entries, setMin_entries, remove_entries]; exact sp
+    · exact sp
+  · rw [has_false_iff] at hh
+    simp only [add_entries, keys_append_single]
+    rw [List.nodup_append]
+    refine ⟨hnd, by simp, ?_⟩
+    intro a ha b hb
+    rw [List.mem_singleton] at hb
+    rw [hb]; intro hab; exact hh (hab ▸ ha)
+  · exact hnd
+
+def NodupSet (s : ASet) : Prop := (keys s.entries).Nodup
+
+theorem nodupSet_stable (o : Oracle) : NotifyStable NodupSet o :=
+  fun s d a h => (notify_keys s d a _ h).1
+
+/-! ## groups see the node's state -/
+
+def AgreeAt (nodes : Nat → Node) (s : ASet) (m : Nat) : Prop :=
+  m ∈ keys s.entries ↔ (nodes m).alive s.idx = true
+
+/-- every registered set agrees with every member's alive flag, except possibly at pairs in `Ex` -/
+def AgreeEx (nodes : Nat → Node) (sets : List ASet) (Ex : Nat → Nat → Prop) : Prop :=
+  ∀ s ∈ sets, s.active = true → ∀ m ∈ s.members, Ex m s.idx ∨ AgreeAt nodes s m
+
+theorem notifyAll_agree (nodes : Nat → Node) (n c : Nat) (a : Bool) (o : Oracle) (Ex : Nat → Nat → Prop)
+    (ha : (nodes n).alive c = a) : ∀ sets : List ASet, (∀ s ∈ sets, NodupSet s) →
+    AgreeEx nodes sets (fun m i => (m = n ∧ i = c) ∨ Ex m i) →
+    AgreeEx nodes (notifyAll sets n c a o).1 Ex := by
+  intro sets
+  induction sets with
+  | nil => intro _ _ s hs; simp [notifyAll] at hs
+  | cons x xs ih =>
+    intro hnd hag s hs hact m hm
+    simp only [notifyAll, List.mem_cons] at hs
+    rcases hs with rfl | hs
+    · unfold notifyOne at hact hm ⊢
+      by_cases hc : x.active = true ∧ x.idx = c ∧ n ∈ x.members
+      · simp only [hc, and_self, if_true] at hact hm ⊢
+        generalize o.get x.gid c n = lat at *
+        obtain ⟨_, _, hidx, _, _, hmem, _, hactive⟩ := notify_static x n a lat
+        obtain ⟨_, hk⟩ := notify_keys x n a lat (hnd x List.mem_cons_self)
+        rw [hmem] at hm
+        by_cases hmn : m = n
+        · right
+          subst hmn
+          unfold AgreeAt
+          rw [hk, hidx, hc.2.1, ha]; simp
+        · rcases hag x List.mem_cons_self hc.1 m hm with (⟨h1, _⟩ | h1) | h1
+          · exact absurd h1 hmn
+          · left; rw [hidx]; exact h1
+          · right
+            unfold AgreeAt at h1 ⊢
+            rw [hk, hidx]; simp only [hmn, if_false]; exact h1
+      · simp only [hc, if_false] at hact hm ⊢
+        rcases hag x List.mem_cons_self hact m hm with (⟨h1, h2⟩ | h1) | h1
+        · exfalso; apply hc; exact ⟨hact, h2, h1 ▸ hm⟩
+        · left; exact h1
+        · right; exact h1
+    · exact ih (fun s hs => hnd s (List.mem_cons_of_mem _ hs))
+        (fun s hs => hag s (List.mem_cons_of_mem _ hs)) s hs hact m hm
+
+/-- updating one node at one index weakens agreement by exactly that pair -/
+theorem agreeEx_update (nodes nodes' : Nat → Node) (sets : List ASet) (Ex : Nat → Nat → Prop) (n c : Nat)
+    (hd : ∀ m i, (m = n ∧ i = c) ∨ (nodes' m).alive i = (nodes m).alive i)
+    (h : AgreeEx nodes sets Ex) : AgreeEx nodes' sets (fun m i => (m = n ∧ i = c) ∨ Ex m i) := by
+  intro s hs hact m hm
+  rcases h s hs hact m hm with h1 | h1
+  · left; right; exact h1
+  · rcases hd m s.idx with h2 | h2
+    · left; left; exact h2
+    · right; unfold AgreeAt at *; rw [h2]; exact h1
+
+theorem agreeEx_same (nodes nodes' : Nat → Node) (sets : List ASet) (Ex : Nat → Nat → Prop)
+    (hd : ∀ m i, (nodes' m).alive i = (nodes m).alive i) (h : AgreeEx nodes sets Ex) : AgreeEx nodes' sets Ex := by
+  intro s hs hact m hm
+  rcases h s hs hact m hm with h1 | h1
+  · left; exact h1
+  · right; unfold AgreeAt at *; rw [hd]; exact h1
+
+/-- a primitive that sets `alive (n, c) := a` (other flags untouched) and then notifies -/
+theorem point_update_agree (w : World) (n c : Nat) (a : Bool) (o : Oracle) (nd' : Node) (Ex : Nat → Nat → Prop)
+    (hnd : SetsAll NodupSet w) (ha : nd'.alive c = a) (hother : ∀ i, i ≠ c → nd'.alive i = (w.nodes n).alive i)
+    (h : AgreeEx w.nodes w.sets Ex) :
+    AgreeEx (upd w.nodes n nd') (notifyAll w.sets n c a o).1 Ex := by
+  apply notifyAll_agree _ n c a o Ex (by simp [ha]) _ hnd
+  apply agreeEx_update w.nodes _ w.sets Ex n c _ h
+  intro m i
+  by_cases hm : m = n
+  · by_cases hi : i = c
+    · left; exact ⟨hm, hi⟩
+    · right; subst hm; simp [hother i hi]
+  · right; rw [upd_other _ _ _ _ hm]
+
+
 end DaeVerif.C16
